@@ -16,7 +16,9 @@ import AmVerif.Proofs.HexaneLoad
   * second sentence ("returns a column or an error and never panics"): `C35_decode_total` is the
     trichotomy; "never panics" is FALSE on the unchanged tree in overflow-checking builds, shown in
     negated form by `C35_load_panics_*` (three concrete byte strings, the findings).
-  * third sentence: `C35_load_save_load_partial`.
+  * third sentence: `C35_load_save_load_partial` — SUPERSEDED by
+    `AmVerif.Props.C35Full.C35_load_save_load` (no side conditions, no length bound, every weight),
+    `C35_load_valid`, `C35_delta_load_save_load`, `C35_bool_load_save_load`.
 -/
 namespace AmVerif.Props.C35
 open AmVerif AmVerif.Hexane
@@ -79,7 +81,8 @@ theorem C35_raw_roundtrip (xs : Bytes) : rawDecode (rawEncode xs) = .ok xs := rf
 
 example : rawDecode (rawEncode [0, 255, 128]) = .ok [0, 255, 128] := rfl
 
-/-- Delta columns, PARTIAL: the differences round-trip through the RLE layer and realise back to
+/-- SUPERSEDED by `AmVerif.Props.C35Full.C35_delta_roundtrip`, which proves the missing part (kept
+    for reference).  Delta columns, PARTIAL: the differences round-trip through the RLE layer and realise back to
     the values.  Missing: that `DeltaColumn::load`'s own bookkeeping (`Weight.delta`: checked
     per-slab offsets and the domain walk of `domainCheck`) accepts the encoder's bytes whenever
     the values lie in a 2^63-wide window inside the type's domain — the statement here runs the
@@ -139,7 +142,9 @@ theorem C35_load_panics_prefix_overflow :
     (rleDecode cU32 false (.prefixU two64) (fun n => (n : Int))
       [0xff, 0xff, 0xff, 0xff, 0xff, 0xff, 0xff, 0xff, 0xff, 0x00, 0xff, 0xff, 0xff, 0xff, 0x0f]).isPanic = true := by decide
 
-/-- Third sentence, PARTIAL: a list that came out of a load re-encodes to bytes that load to the
+/-- SUPERSEDED by `AmVerif.Props.C35Full.C35_load_save_load` / `C35_load_valid`, which derive both
+    side conditions from the load and drop the length bound (kept for reference).
+    Third sentence, PARTIAL: a list that came out of a load re-encodes to bytes that load to the
     same list.  Missing: the two side conditions are not derived from `hload` here — that every
     value `unpack` returns is `Valid` and that nulls only come out of nullable loads (both hold by
     inspection of `parse`: `u32` is range-checked, strings are UTF-8-checked, null runs are
